@@ -563,6 +563,7 @@ impl World {
             worker: id,
             shared: self.launch.clone(),
             origin: self.origin,
+            desc: cfg.resources.clone(),
         };
         let (sim, r_rx) = SimWorker::new(response, cfg.clone(), Box::new(launcher));
         let stream = ManualStream::default();
